@@ -260,7 +260,15 @@ def multi():
           F('Twist3_v_M', [S6, T6], lambda s, t: tw3(s, t).v, '2-valued Twist3.v'),
           F('Twist3_w_M', [S6, T6], lambda s, t: tw3(s, t).w, '2-valued Twist3.w'),
           F('Twist3_inv_M', [S6, T6], lambda s, t: out(tw3(s, t).inv()), '2-valued Twist3.inv()'),
-          F('Twist3_mul_scalar_M', [S6, T6, P('k')], lambda s, t, k: out(tw3(s, t) * k), '2-valued Twist3 * scalar')]
+          F('Twist3_mul_scalar_M', [S6, T6, P('k')], lambda s, t, k: out(tw3(s, t) * k), '2-valued Twist3 * scalar'),
+          F('Twist3_se3_M', [S6, T6], lambda s, t: tuple(tw3(s, t).se3()), '2-valued Twist3.se3()'),
+          F('Twist3_rmul_scalar_M', [S6, T6, P('k')], lambda s, t, k: out(k * tw3(s, t)), 'scalar * 2-valued Twist3')]
+    S3, T3 = P('S', (3,)), P('T', (3,))
+    def tw2(s, t):
+        x = Twist2(); x.data = [s, t]; return x
+    L += [F('Twist2_inv_M', [S3, T3], lambda s, t: out(tw2(s, t).inv()), '2-valued Twist2.inv()'),
+          F('Twist2_mul_scalar_M', [S3, T3, P('k')], lambda s, t, k: out(tw2(s, t) * k), '2-valued Twist2 * scalar'),
+          F('Twist2_se2_M', [S3, T3], lambda s, t: tuple(tw2(s, t).se2()), '2-valued Twist2.se2()')]
     q, p_ = P('q', (4,)), P('p', (4,))
     def uq2(a, b):
         x = UnitQuaternion(); x.data = [a, b]; return x
